@@ -55,9 +55,13 @@ where
 {
     // expect() here should be OK, it's job is to propagate a panic across
     // threads if the lock is poisoned.
+    #[cfg(feature = "verif-hooks")]
+    crate::verif::sync_event(crate::verif::SyncEvent::CfgBefore);
     let lock = global_config()
         .lock()
         .expect("Failed to acquire updater lock.");
+    #[cfg(feature = "verif-hooks")]
+    let _verif_held = crate::verif::CfgHeld::new();
     check_initialized_and_call(f, &lock)
 }
 
@@ -65,9 +69,13 @@ pub fn with_config_mut<F, R>(f: F) -> R
 where
     F: FnOnce(&mut Option<UpdateConfig>) -> R,
 {
+    #[cfg(feature = "verif-hooks")]
+    crate::verif::sync_event(crate::verif::SyncEvent::CfgBefore);
     let mut lock = global_config()
         .lock()
         .expect("Failed to acquire updater lock.");
+    #[cfg(feature = "verif-hooks")]
+    let _verif_held = crate::verif::CfgHeld::new();
     f(&mut lock)
 }
 
